@@ -212,15 +212,14 @@ def check_truth_run(ctx: Ctx, rname: str, res: dict, by_track: Dict[str, List[st
                 if (a, b, m) != (o, spec, mv) and (o != spec or o != mv) and a == b == m:
                     ctx.count("truth:float-boundary-step (binned leaves excluded)")
             if a != b:
+                ok = False
                 d = rig.first_diff(a, b) or ""
                 path = d.split(": impl=")[0]
                 sig = {"kind": "obs-vs-ground-truth", "leaf": path.rsplit("/", 1)[-1].split(":", 1)[-1], "property_oracle": "observation == spec(objects)"}
                 if sig["leaf"] == "health_status" and "/s:FOLDERS/" in path and "/s:FILES/" not in path and \
                         (res.get("replaced") or {}).get(f"{key.split(':', 1)[0]}:{step}"):
-                    # F-C09-5 (open): a folder deleted and created again under the same name between two observations
+                    # the class of F-C09-5 (repaired by 59ceb16): a folder deleted and created again under the same name between two observations
                     sig["cause"] = "folder-replaced-within-one-tick"
-                else:
-                    ok = False  # (the recorded finding is reported through ctx.violation; the run-level obligation counts everything else)
                 ctx.violation(sig,
                               f"{rname} {key} step {step}: observation differs from the documented encoding of the objects "
                               f"(gates taken from the {'scenario file' if tr['mode'] == 'scenario' else 'constructed object'}): {d}",
